@@ -925,8 +925,10 @@ fn replay_c19(ctx: &mut Ctx, v: &Value) {
             let _ = std::fs::write(&inputs, sync_inputs_json());
             let p: Vec<String> = v["pair"].as_array().map(|a| a.iter().map(|x| x.as_u64().unwrap_or(0).to_string()).collect()).unwrap_or_default();
             let b = v["bound"].as_u64().unwrap_or(2).to_string();
-            if p.len() == 2 {
-                if let Ok(out) = std::process::Command::new(bin).args([&inputs, &b, &"pair".to_string(), &p[0], &p[1]]).output() {
+            if p.len() >= 2 {
+                let mut a = vec![inputs.clone(), b.clone(), "group".to_string()];
+                a.extend(p.iter().cloned());
+                if let Ok(out) = std::process::Command::new(bin).args(&a).output() {
                     let text = String::from_utf8_lossy(&out.stdout).to_string();
                     if let Some(r) = text.lines().rev().find_map(|l| serde_json::from_str::<Value>(l).ok()) {
                         println!("  instrumented-sync exploration: {} schedules", r["schedules"]);
